@@ -75,6 +75,18 @@ CHECKS["C17"] = dict(
     design="DESIGN.md section 3 / C17",
 )
 
+CHECKS["C01"] = dict(
+    technique="CFG dominance / post-dominance queries over the conversion pipeline with helper inlining, regex automata inclusion of the gate's allowlist in the README grammar, symbolic target-form checks of the path rewrites, def-use checks of attribute clean-up sites, who-may-create table for elements",
+    text="Necessary structural conditions of the output grammar on every path: the validating gate post-dominates the in-place pipeline and raises, "
+         "its allowlist language is included in the documented grammar, options flow by name from CLI to gate, every precedence the grammar needs "
+         "between stages holds by dominance, nothing changes numbers after rounding, every number is rounded unconditionally, rewrites reach the "
+         "restricted command set, kept groups carry only the clamped opacity the decision used, clean-up sites of _simplify are present, and no new "
+         "element creation site exists.",
+    note="Known finding F5 (remove_unpainted_shapes after the last group pruning) is listed in known_findings.json. Not decided: finiteness of "
+         "Skia output, survival of evenodd on paths no path operation touched, lxml serialisation.",
+    design="DESIGN.md section 3 / C01",
+)
+
 NOT_APPLICABLE = {}
 
 
